@@ -353,6 +353,10 @@ func historySequences(c *ShardCtx, variant int) {
 			o := cl.o
 			if k == 0 {
 				last = b.Run([]byte(cl.in), &o, cl.script)
+			} else if optsString(&cl.o) == optsString(&cs[k-1].o) {
+				// the caller keeps its option VALUES (opts := []Option{...}) and passes them again
+				last = b.RunWarmReuse([]byte(cl.in), &o, cl.script)
+				c.Res.Counters["history_calls_with_reused_option_values"]++
 			} else {
 				last = b.RunWarm([]byte(cl.in), &o, cl.script)
 			}
